@@ -68,6 +68,9 @@ pub struct CrashPlan {
     pub long: bool,
     #[serde(default)]
     pub single: Vec<(usize, u32)>,
+    /// additionally enumerate the crash points of the very first open of a new database
+    #[serde(default)]
+    pub creation: bool,
 }
 
 #[derive(Clone, Default, Debug, PartialEq, Eq)]
@@ -219,6 +222,7 @@ impl Scenario for Crash {
             double: (0..if thorough { 6 } else { 2 }).map(|_| ((rng.usize_below(nops), rng.below(5) as u32), (rng.usize_below(nops), rng.below(5) as u32))).collect(),
             long: false,
             single: vec![],
+            creation: rng.chance(1, 40),
         }
     }
 
@@ -243,6 +247,13 @@ impl Scenario for Crash {
             let mut p = plan.clone();
             p.l3_samples = 0;
             p.io_error = None;
+            out.push(p);
+        }
+        if plan.creation && !plan.ops.is_empty() {
+            // the first open alone
+            let mut p = plan.clone();
+            p.ops.clear();
+            p.double.clear();
             out.push(p);
         }
         for (i, op) in plan.ops.iter().enumerate() {
@@ -287,7 +298,7 @@ impl Scenario for Crash {
         if self.long {
             return "Histories of 60-220 operations, mostly writes at few keys with mostly increasing timestamps (overwrites and prefix deletions keep pruning), single-step modifications in between, and no or hardly any committing operation, so that up to several hundred modifications pile up in one write transaction; per history every crash point x loss model (L1, L2) is judged, with no age commit and with 0-2 sampled single placements. evaluations = crash scenarios judged; distinct = distinct reopened images.".into();
         }
-        "Histories of 3-12 operations (remote/local inserts and deletions, multi-entry messages, policies, peers, capability imports, document removal, flush, reads) are sampled; per history the crash-point x loss-model (L1, L2) x single-age-commit-placement space is enumerated completely (thorough adds sampled L3/torn images, I/O errors and more double placements). evaluations = crash scenarios judged (placement, crash point, loss); distinct = distinct reopened images (by rolling hash of the write log prefix).".into()
+        "Histories of 3-12 operations (remote/local inserts and deletions, multi-entry messages, policies, peers, capability imports, document removal, flush, reads) are sampled; per history the crash-point x loss-model (L1, L2) x single-age-commit-placement space is enumerated completely (thorough adds sampled L3/torn images, I/O errors and more double placements). One history in forty also enumerates the crash points of the very first open of a new database (every image plain redb accepts must open as the empty store). evaluations = crash scenarios judged (placement, crash point, loss); distinct = distinct reopened images (by rolling hash of the write log prefix).".into()
     }
 }
 
@@ -340,6 +351,7 @@ fn gen_long(rng: &mut Rng, tier: Tier) -> CrashPlan {
         l3_samples: 0,
         io_error: None,
         double: vec![],
+        creation: false,
         long: true,
         single: (0..rng.urange(0, 2)).map(|_| (rng.usize_below(nops), rng.below(4) as u32)).collect(),
     }
@@ -577,7 +589,55 @@ fn classify(plan: &CrashPlan, k_in_progress: Option<usize>, placement: &[(usize,
     format!("op={inprog}/{placed}")
 }
 
+/// Crash points of the very first open of a new database (file creation by redb, table setup,
+/// migrations): every image that plain redb accepts must be opened by the store and show the
+/// empty store - the only state it has passed through. Images that plain redb itself refuses (a
+/// kill inside redb's own file initialisation) are redb's matter and are skipped.
+fn creation_crashes(cx: &mut Cx) -> Res<u64> {
+    let disk = SimDisk::new();
+    disk.start_recording();
+    let mut store = Store::verif_with_backend(disk.clone()).map_err(|e| harness(format!("create: {e:#}")))?;
+    store.flush().map_err(|e| harness(format!("{e:#}")))?;
+    disk.freeze();
+    drop(store);
+    let n = disk.log_len();
+    let empty = expected(&vec![DocState::default(); crate::world::N_DOCS]);
+    let mut judged = 0;
+    let mut seen = std::collections::HashSet::new();
+    for w in 0..=n {
+        for loss in [Loss::L1, Loss::L2] {
+            let image = disk.image_at(w, loss);
+            if !seen.insert(fnv(&image) ^ image.len() as u64) {
+                continue;
+            }
+            if !image.is_empty() {
+                let plain = redb::Database::builder().create_with_backend(SimDisk::from_image(image.clone()));
+                if plain.is_err() {
+                    cx.fault("crash_inside_redb_file_initialisation_skipped");
+                    continue;
+                }
+            }
+            cx.fault("crash_during_first_open_judged");
+            judged += 1;
+            let what = format!("{loss:?} crash after disk op {w}/{n} of the first open of a new database");
+            match reopen(image) {
+                Err(e) => return Err(Violation::new("open-fails/op=create/no-age-commit", format!("{what}: plain redb opens the image, but the store fails on it: {e}"))),
+                Ok(o) => {
+                    if let Some((kind, detail)) = &o.inconsistent {
+                        return Err(Violation::new(format!("inconsistent/{kind}/op=create/no-age-commit"), format!("{what}: {detail}")));
+                    }
+                    if o.docs != empty {
+                        return Err(Violation::new("not-a-passed-state/op=create/no-age-commit", format!("{what}: the reopened store is not empty")));
+                    }
+                }
+            }
+        }
+    }
+    Ok(judged)
+}
+
 async fn run(plan: &CrashPlan, cx: &mut Cx) -> Res {
+    let created = if plan.creation { creation_crashes(cx)? } else { 0 };
     // 1. baseline: count internal store calls per op
     let base = execute(plan, &[], None).await?;
     let mut placements: Vec<Vec<(usize, u32)>> = vec![vec![]];
@@ -622,7 +682,7 @@ async fn run(plan: &CrashPlan, cx: &mut Cx) -> Res {
     for k in cache.keys() {
         cx.state(*k);
     }
-    cx.evals = judged;
+    cx.evals = judged + created;
     Ok(())
 }
 
